@@ -22,29 +22,41 @@ pub mod c17;
 
 pub fn run(id: &str, tier: Tier) -> i32 {
     let run = match id {
-        "C01" => { let r = Run::new("C01", tier); c01::run(&r); r }
-        "C02" => { let r = Run::new("C02", tier); c02::run(&r); r }
-        "C03" => { let r = Run::new("C03", tier); c03::run(&r); r }
-        "C04" => { let r = Run::new("C04", tier); start_watchdog("C04"); c04::run(&r); r }
-        "C05" => { let r = Run::new("C05", tier); start_watchdog("C05"); c05::run(&r); r }
-        "C06" => { let r = Run::new("C06", tier); c06::run(&r); r }
-        "C07" => { let r = Run::new("C07", tier); c07::run(&r); r }
-        "C08" => { let r = Run::new("C08", tier); c08::run(&r); r }
-        "C09" => { let r = Run::new("C09", tier); c09::run(&r); r }
-        "C10" => { let r = Run::new("C10", tier); c10::run(&r); r }
-        "C11" => { let r = Run::new("C11", tier); start_watchdog("C11"); c11::run(&r); r }
-        "C12" => { let r = Run::new("C12", tier); start_watchdog("C12"); c12::run(&r); r }
-        "C13" => { let r = Run::new("C13", tier); c13::run(&r); r }
-        "C14" => { let r = Run::new("C14", tier); c14::run(&r); r }
-        "C15" => { let r = Run::new("C15", tier); c15::run(&r); r }
-        "C16" => { let r = Run::new("C16", tier); c16::run(&r); r }
-        "C17" => { let r = Run::new("C17", tier); c17::run(&r); r }
+        "C01" => { let r = Run::new("C01", tier); guarded(&r, || c01::run(&r)); r }
+        "C02" => { let r = Run::new("C02", tier); guarded(&r, || c02::run(&r)); r }
+        "C03" => { let r = Run::new("C03", tier); guarded(&r, || c03::run(&r)); r }
+        "C04" => { let r = Run::new("C04", tier); start_watchdog("C04"); guarded(&r, || c04::run(&r)); r }
+        "C05" => { let r = Run::new("C05", tier); start_watchdog("C05"); guarded(&r, || c05::run(&r)); r }
+        "C06" => { let r = Run::new("C06", tier); guarded(&r, || c06::run(&r)); r }
+        "C07" => { let r = Run::new("C07", tier); guarded(&r, || c07::run(&r)); r }
+        "C08" => { let r = Run::new("C08", tier); guarded(&r, || c08::run(&r)); r }
+        "C09" => { let r = Run::new("C09", tier); guarded(&r, || c09::run(&r)); r }
+        "C10" => { let r = Run::new("C10", tier); guarded(&r, || c10::run(&r)); r }
+        "C11" => { let r = Run::new("C11", tier); start_watchdog("C11"); guarded(&r, || c11::run(&r)); r }
+        "C12" => { let r = Run::new("C12", tier); start_watchdog("C12"); guarded(&r, || c12::run(&r)); r }
+        "C13" => { let r = Run::new("C13", tier); guarded(&r, || c13::run(&r)); r }
+        "C14" => { let r = Run::new("C14", tier); guarded(&r, || c14::run(&r)); r }
+        "C15" => { let r = Run::new("C15", tier); guarded(&r, || c15::run(&r)); r }
+        "C16" => { let r = Run::new("C16", tier); guarded(&r, || c16::run(&r)); r }
+        "C17" => { let r = Run::new("C17", tier); guarded(&r, || c17::run(&r)); r }
         _ => {
             eprintln!("unknown property id {id}");
             return 2;
         }
     };
     run.finish()
+}
+
+/// A panic that escapes every per-case guard (while building, hashing or comparing values of the
+/// universe) is reported as a violation with the panic message instead of killing the process.
+fn guarded(run: &Run, f: impl FnOnce()) {
+    if let Err(p) = crate::report::quiet_catch(std::panic::AssertUnwindSafe(f)) {
+        run.violation(
+            &format!("a panic escaped while values of the universe were being built, hashed or compared (outside any guarded case): {p}"),
+            serde_json::json!({"op": "escaped_panic", "message": p}),
+            &[],
+        );
+    }
 }
 
 /// non-termination becomes a verdict: report the case that has been running too long and exit 1
@@ -92,6 +104,9 @@ pub fn replay_case(id: &str, op: &str, case: &serde_json::Value) -> Result<(), S
         std::fs::write(&probe, serde_json::json!({"tag": case["tag"], "what": case["what"]}).to_string()).map_err(|e| e.to_string())?;
         let st = std::process::Command::new(exe).args([id, "--probe", probe.as_str()]).env("NVCHECK_CHILD", "1").status().map_err(|e| e.to_string())?;
         return if st.code() == Some(0) { Ok(()) } else { Err(format!("the probe process dies: {st}")) };
+    }
+    if op == "escaped_panic" {
+        return Err("recorded panic outside a guarded case; re-run the check to re-evaluate".into());
     }
     if op == "hang" {
         return Err("recorded non-termination; re-run the check to re-evaluate".into());
